@@ -2,11 +2,12 @@
 //! case := (list sop, outcome atx)   (see coq/theories/C40/Run.v)
 //!
 //! A case is the comma-separated op-token list printed in SAMPLE / ORACLE_FAIL lines (also the
-//! corpus format, one list per line in corpus/C40/*.ops). All values come from fixed pools:
+//! corpus format, one list per line in corpus/C40/*.ops). The oracle compares the built transaction with
+//! what the operations staged (followed independently of the builder). All values come from fixed pools:
 //!   in/rin/ref/rref/col/rcol:H:I   inputs (tx-hash pool H, index I)     out:/cout:<spec> rout:IDX ccout
 //!   <spec> = A.L.<P-N-amt+..|_>.<_|hH|iD>.<_|S>   address, lovelace, add_asset calls, datum, script
 //!   fee:N cfee mint:P:N:amt rmint:P:N vf:N cvf if:N cif net:N cnet sg:K rsg:K scr:S rscr:S
-//!   dat:D rdat:D rdath:D (by the builder's key) rdatt:D (by Blake2b of the bytes) lv lang:K
+//!   dat:D rdat:D rdath:D / rdatt:D (remove_datum_by_hash with the datum hash) lv lang:K
 //!   srd:H:I:D:<_|mem-steps> rsrd:H:I mrd:P:D:<ex> rmrd:P aux:X caux nop:K
 #[path = "txb_common/mod.rs"]
 mod txb_common;
@@ -15,7 +16,7 @@ use pallas_crypto::hash::{Hash, Hasher};
 use pallas_primitives::conway::{self, DatumOption, NativeScript, PlutusData, Redeemers, ScriptRef, TransactionOutput, Value};
 use pallas_primitives::Fragment;
 use pallas_txbuilder::{BuildConway, ExUnits, Input, Output, ScriptKind, StagingTransaction};
-use std::collections::BTreeSet;
+use std::collections::{BTreeMap, BTreeSet};
 use txb_common::*;
 use verif_harness::*;
 
@@ -132,7 +133,7 @@ fn script_coq(s: usize, t: &mut Terms) -> String {
     format!("(mkScript {} {} {})", kind_z(k), t.b(&b), coq_bool(ok))
 }
 fn script_key(s: usize) -> [u8; 28] { let (k, b) = script(s); *Hasher::<224>::hash_tagged(&b, kind_z(k)) }
-fn datum_key(d: usize) -> [u8; 32] { *Hasher::<256>::hash_cbor(&pd(d)) }
+fn datum_key(d: usize) -> [u8; 32] { *Hasher::<256>::hash(&pd(d)) }
 fn rdmr_coq(d: usize, ex: &Option<(u64, u64)>, t: &mut Terms) -> String {
     format!("(mkRdmr {} {} {})", t.b(&pd(d)), coq_bool(PlutusData::decode_fragment(&pd(d)).is_ok()),
         match ex { None => "None".to_string(), Some((m, s)) => format!("(Some ({},{}))", m, s) })
@@ -300,105 +301,122 @@ fn decode(tx_bytes: &[u8]) -> Option<Dec> {
     Some(d)
 }
 
-// ---------------------------------------------------------------- the staged content, read back from the real struct (serde view)
-fn jhex(v: &serde_json::Value) -> Vec<u8> { hex::decode(v.as_str().unwrap_or("")).unwrap_or_default() }
-fn jinputs(v: &serde_json::Value) -> Vec<(Vec<u8>, u64)> {
-    v.as_array().map(|a| a.iter().map(|i| (jhex(&i["tx_hash"]), i["txo_index"].as_u64().unwrap())).collect()).unwrap_or_default()
-}
-fn jassets_u(v: &serde_json::Value) -> Vec<(Vec<u8>, Vec<(Vec<u8>, u64)>)> {
-    let mut out: Vec<(Vec<u8>, Vec<(Vec<u8>, u64)>)> = v.as_object().map(|m| m.iter().map(|(p, a)| {
-        let mut l: Vec<(Vec<u8>, u64)> = a.as_object().unwrap().iter().map(|(n, x)| (hex::decode(n).unwrap(), x.as_u64().unwrap())).filter(|e| e.1 != 0).collect();
-        l.sort();
-        (hex::decode(p).unwrap(), l)
-    }).filter(|e| !e.1.is_empty()).collect()).unwrap_or_default();
-    out.sort();
-    out
-}
-fn jassets_i(v: &serde_json::Value) -> Vec<(Vec<u8>, Vec<(Vec<u8>, i64)>)> {
-    let mut out: Vec<(Vec<u8>, Vec<(Vec<u8>, i64)>)> = v.as_object().map(|m| m.iter().map(|(p, a)| {
-        let mut l: Vec<(Vec<u8>, i64)> = a.as_object().unwrap().iter().map(|(n, x)| (hex::decode(n).unwrap(), x.as_i64().unwrap())).filter(|e| e.1 != 0).collect();
-        l.sort();
-        (hex::decode(p).unwrap(), l)
-    }).filter(|e| !e.1.is_empty()).collect()).unwrap_or_default();
-    out.sort();
-    out
-}
-fn jkind(v: &serde_json::Value) -> u8 { match v.as_str().unwrap_or("") { "native" => 0, "plutus_v1" => 1, "plutus_v2" => 2, _ => 3 } }
-fn jout(v: &serde_json::Value) -> DOut {
-    use std::str::FromStr;
-    DOut {
-        addr: pallas_addresses::Address::from_str(v["address"].as_str().unwrap()).unwrap().to_vec(),
-        coin: v["lovelace"].as_u64().unwrap(), assets: jassets_u(&v["assets"]),
-        datum: if v["datum"].is_null() { None } else { Some((v["datum"]["kind"] == "inline", jhex(&v["datum"]["bytes"]))) },
-        script: if v["script"].is_null() { None } else { Some((jkind(&v["script"]["kind"]), jhex(&v["script"]["bytes"]))) },
-    }
-}
+// ---------------------------------------------------------------- the staged content
 fn has_zero(v: &serde_json::Value) -> bool {
     v.as_object().map(|m| m.values().any(|a| a.as_object().map(|x| x.values().any(|q| q.as_i64() == Some(0) || q.as_u64() == Some(0))).unwrap_or(false))).unwrap_or(false)
 }
 fn sorted<T: Ord + Clone>(v: &[T]) -> Vec<T> { let mut x = v.to_vec(); x.sort(); x }
 
+/// What the caller staged, followed from the operations themselves (NOT read back from the
+/// builder): an item removed / cleared is no longer staged at all (every copy of it); a call the
+/// builder refuses or documents as ignored (undecodable auxiliary data) leaves the previously
+/// staged content in place; inputs, scripts, datums and redeemers are sets / maps.
+#[derive(Default, Debug)]
+struct Exp {
+    inputs: Vec<(Vec<u8>, u64)>, refs: Vec<(Vec<u8>, u64)>, colls: Vec<(Vec<u8>, u64)>, outputs: Vec<DOut>, fee: Option<u64>,
+    mint: BTreeMap<(Vec<u8>, Vec<u8>), i64>, vf: Option<u64>, ifs: Option<u64>, net: Option<u8>, collout: Option<DOut>,
+    signers: Vec<Vec<u8>>, scripts: BTreeSet<(u8, Vec<u8>)>, datums: BTreeSet<Vec<u8>>,
+    rdmrs: BTreeMap<String, (Vec<u8>, Option<(u64, u64)>)>, lv: bool, aux: Option<Vec<u8>>,
+}
+fn exp_out(o: &OutSpec) -> DOut {
+    let mut m: BTreeMap<Vec<u8>, BTreeMap<Vec<u8>, u64>> = BTreeMap::new();
+    for (p, n, v) in &o.assets { *m.entry(pol(*p).to_vec()).or_default().entry(NAMES[*n % 6].to_vec()).or_default() += *v; }
+    let assets = m.into_iter().map(|(p, l)| (p, l.into_iter().filter(|e| e.1 != 0).collect::<Vec<_>>())).filter(|e| !e.1.is_empty()).collect();
+    DOut { addr: addr(o.addr).to_vec(), coin: o.lovelace, assets,
+        datum: o.datum.as_ref().map(|d| match d { Dat::H(h) => (false, hash32(*h).to_vec()), Dat::I(i) => (true, pd(*i)) }),
+        script: o.script.map(|x| { let (k, b) = script(x); (kind_z(k), b) }) }
+}
+impl Exp {
+    fn step(&mut self, op: &Op) {
+        use Op::*;
+        let i = |h: &usize, ix: &u64| (hash32(*h).to_vec(), *ix);
+        match op {
+            In(h, x) => self.inputs.push(i(h, x)), RIn(h, x) => { let k = i(h, x); self.inputs.retain(|e| *e != k) }
+            Ref(h, x) => self.refs.push(i(h, x)), RRef(h, x) => { let k = i(h, x); self.refs.retain(|e| *e != k) }
+            Col(h, x) => self.colls.push(i(h, x)), RCol(h, x) => { let k = i(h, x); self.colls.retain(|e| *e != k) }
+            Out(o) => self.outputs.push(exp_out(o)), ROut(ix) => { if *ix < self.outputs.len() { self.outputs.remove(*ix); } }
+            COut(o) => self.collout = Some(exp_out(o)), CCOut => self.collout = None,
+            Fee(n) => self.fee = Some(*n), CFee => self.fee = None,
+            Mint(p, n, a) => { if NAMES[*n % 7].len() <= 32 { let e = self.mint.entry((pol(*p).to_vec(), NAMES[*n % 7].to_vec())).or_insert(0); *e = e.wrapping_add(*a); } }
+            RMint(p, n) => { self.mint.remove(&(pol(*p).to_vec(), NAMES[*n % 7].to_vec())); }
+            Vf(n) => self.vf = Some(*n), CVf => self.vf = None, If(n) => self.ifs = Some(*n), CIf => self.ifs = None,
+            Net(n) => self.net = Some(*n), CNet => self.net = None,
+            Sg(k) => self.signers.push(keyhash(*k).to_vec()), RSg(k) => { let h = keyhash(*k).to_vec(); self.signers.retain(|e| *e != h) }
+            Scr(x) => { let (k, b) = script(*x); self.scripts.insert((kind_z(k), b)); }
+            RScr(x) => { let (k, b) = script(*x); self.scripts.remove(&(kind_z(k), b)); }
+            DatO(d) => { self.datums.insert(pd(*d)); }
+            RDat(d) | RDatH(d) | RDatT(d) => { self.datums.remove(&pd(*d)); }
+            Lv => self.lv = true, Lang(k) => { if kind_of(*k) != ScriptKind::Native { self.lv = true; } }
+            SRd(h, x, d, e) => { self.rdmrs.insert(format!("spend:{}#{}", hex(&hash32(*h)), x), (pd(*d), *e)); }
+            RSRd(h, x) => { self.rdmrs.remove(&format!("spend:{}#{}", hex(&hash32(*h)), x)); }
+            MRd(p, d, e) => { self.rdmrs.insert(format!("mint:{}", hex(&pol(*p))), (pd(*d), *e)); }
+            RMRd(p) => { self.rdmrs.remove(&format!("mint:{}", hex(&pol(*p)))); }
+            // documented: invalid CBOR is silently ignored -> the last successfully staged value stays
+            Aux(x) => { if let Ok(a) = minicbor::decode::<conway::AuxiliaryData>(&aux(*x)) { self.aux = Some(minicbor::to_vec(&a).unwrap()); } }
+            CAux => self.aux = None,
+            Nop(_) => {}
+        }
+    }
+    fn mint_list(&self) -> Vec<(Vec<u8>, Vec<(Vec<u8>, i64)>)> {
+        let mut m: BTreeMap<Vec<u8>, Vec<(Vec<u8>, i64)>> = BTreeMap::new();
+        for ((p, n), v) in &self.mint { if *v != 0 { m.entry(p.clone()).or_default().push((n.clone(), *v)); } }
+        m.into_iter().collect()
+    }
+}
+
 /// The property's predicate on (staged content, built transaction). First failure only.
-fn oracle(js: &serde_json::Value, st_aux: &Option<conway::AuxiliaryData>, lv: bool, id: &[u8; 32], tx_bytes: &[u8], text: &str) -> bool {
+fn oracle(e: &Exp, id: &[u8; 32], tx_bytes: &[u8], text: &str) -> bool {
     let fail = |k: &str, m: String| -> bool { emit_oracle_fail(k, &format!("{} : {}", text, m)); false };
+    let short = |v: &[(Vec<u8>, u64)]| v.iter().map(|i| format!("{}..{}#{}", hex(&i.0[..1]), hex(&i.0[31..]), i.1)).collect::<Vec<_>>();
     let Some(items) = tx_items(tx_bytes) else { return fail("scan", format!("independent scan cannot split tx {}", hex(tx_bytes))) };
     if *Hasher::<256>::hash(items[0]) != *id { return fail("id-not-body-hash", format!("id {} but Blake2b-256(body) {}", hex(id), hex(&*Hasher::<256>::hash(items[0])))); }
     let Some(d) = decode(tx_bytes) else { return fail("undecodable", format!("built bytes do not decode as a Conway tx: {}", hex(tx_bytes))) };
     if d.other_fields { return fail("extra-fields", "fields nobody staged are present".into()); }
-    // inputs: the staged ones, as a set in canonical (sorted) order
-    let staged_in = jinputs(&js["inputs"]);
-    let canon: Vec<(Vec<u8>, u64)> = staged_in.iter().cloned().collect::<BTreeSet<_>>().into_iter().collect();
-    if d.inputs.iter().cloned().collect::<BTreeSet<_>>() != canon.iter().cloned().collect::<BTreeSet<_>>() { return fail("inputs", format!("decoded {:?} staged {:?}", d.inputs.len(), staged_in.len())); }
-    if sorted(&d.inputs) != d.inputs { return fail("inputs-unsorted", format!("{:?}", d.inputs.iter().map(|i| (hex(&i.0[..2]), i.1)).collect::<Vec<_>>())); }
-    let staged_out: Vec<DOut> = js["outputs"].as_array().map(|a| a.iter().map(jout).collect()).unwrap_or_default();
-    if d.outputs != staged_out { return fail("outputs", format!("decoded {:?} staged {:?}", d.outputs, staged_out)); }
-    if d.fee != js["fee"].as_u64().unwrap_or(0) { return fail("fee", format!("{} vs {}", d.fee, js["fee"])); }
-    if d.ttl != js["invalid_from_slot"].as_u64() || d.vstart != js["valid_from_slot"].as_u64() { return fail("validity", format!("{:?}/{:?} vs {}/{}", d.vstart, d.ttl, js["valid_from_slot"], js["invalid_from_slot"])); }
-    if d.mint != jassets_i(&js["mint"]) { return fail("mint", format!("decoded {:?} staged {}", d.mint, js["mint"])); }
-    if d.collateral != jinputs(&js["collateral_inputs"]) { return fail("collateral", format!("{:?}", d.collateral.len())); }
-    if d.refs != jinputs(&js["reference_inputs"]) { return fail("reference-inputs", format!("{:?}", d.refs.len())); }
-    let signers: Vec<Vec<u8>> = js["disclosed_signers"].as_array().map(|a| a.iter().map(jhex).collect()).unwrap_or_default();
-    if d.signers != signers { return fail("signers", format!("{:?} vs {:?}", d.signers.len(), signers.len())); }
-    if d.network.map(|n| n as u64) != js["network_id"].as_u64() { return fail("network-id", format!("{:?} vs {}", d.network, js["network_id"])); }
-    let collret = if js["collateral_output"].is_null() { None } else { Some(jout(&js["collateral_output"])) };
-    if d.collret != collret { return fail("collateral-return", format!("{:?} vs {:?}", d.collret, collret)); }
+    // inputs: exactly the staged set, in canonical (strictly increasing) order
+    let canon: Vec<(Vec<u8>, u64)> = e.inputs.iter().cloned().collect::<BTreeSet<_>>().into_iter().collect();
+    if d.inputs.iter().cloned().collect::<BTreeSet<_>>() != canon.iter().cloned().collect::<BTreeSet<_>>() {
+        return fail("inputs", format!("built tx spends {:?} but the staged inputs are {:?}", short(&d.inputs), short(&canon)));
+    }
+    if d.inputs != canon { return fail("inputs-unsorted", format!("{:?} (canonical {:?})", short(&d.inputs), short(&canon))); }
+    if d.outputs != e.outputs { return fail("outputs", format!("decoded {:?} staged {:?}", d.outputs, e.outputs)); }
+    if d.fee != e.fee.unwrap_or(0) { return fail("fee", format!("{} vs {:?}", d.fee, e.fee)); }
+    if d.ttl != e.ifs || d.vstart != e.vf { return fail("validity", format!("{:?}/{:?} vs {:?}/{:?}", d.vstart, d.ttl, e.vf, e.ifs)); }
+    if d.mint != e.mint_list() { return fail("mint", format!("decoded {:?} staged {:?}", d.mint, e.mint_list())); }
+    if d.collateral != e.colls { return fail("collateral", format!("{:?} vs {:?}", short(&d.collateral), short(&e.colls))); }
+    if d.refs != e.refs { return fail("reference-inputs", format!("{:?} vs {:?}", short(&d.refs), short(&e.refs))); }
+    if d.signers != e.signers { return fail("signers", format!("{:?} vs {:?}", d.signers.len(), e.signers.len())); }
+    if d.network != e.net { return fail("network-id", format!("{:?} vs {:?}", d.network, e.net)); }
+    if d.collret != e.collout { return fail("collateral-return", format!("{:?} vs {:?}", d.collret, e.collout)); }
     // scripts and datums: as sets
-    let mut by_kind: [Vec<Vec<u8>>; 4] = Default::default();
-    if let Some(m) = js["scripts"].as_object() { for s in m.values() { by_kind[jkind(&s["kind"]) as usize].push(jhex(&s["bytes"])); } }
-    if sorted(&d.native) != sorted(&by_kind[0]) { return fail("scripts-native", format!("{:?} vs {:?}", d.native, by_kind[0])); }
-    for v in 0..3 { if sorted(&d.pv[v]) != sorted(&by_kind[v + 1]) { return fail("scripts-plutus", format!("v{}: {:?} vs {:?}", v + 1, d.pv[v], by_kind[v + 1])); } }
-    let datums: Vec<Vec<u8>> = js["datums"].as_object().map(|m| m.values().map(jhex).collect()).unwrap_or_default();
-    if sorted(&d.datums) != sorted(&datums) { return fail("datums", format!("{:?} vs {:?}", d.datums, datums)); }
-    // auxiliary data and its hash
-    let staged_aux = st_aux.as_ref().map(|a| minicbor::to_vec(a).unwrap());
-    if d.aux != staged_aux { return fail("aux-data", format!("{:?} vs {:?}", d.aux, staged_aux)); }
+    let of_kind = |k: u8| e.scripts.iter().filter(|s| s.0 == k).map(|s| s.1.clone()).collect::<Vec<_>>();
+    if sorted(&d.native) != of_kind(0) { return fail("scripts-native", format!("{:?} vs {:?}", d.native, of_kind(0))); }
+    for v in 0..3 { if sorted(&d.pv[v]) != of_kind(v as u8 + 1) { return fail("scripts-plutus", format!("v{}: {:?} vs {:?}", v + 1, d.pv[v], of_kind(v as u8 + 1))); } }
+    let datums: Vec<Vec<u8>> = e.datums.iter().cloned().collect();
+    if sorted(&d.datums) != datums { return fail("datums", format!("built tx carries {:?} but the staged datums are {:?}", d.datums, datums)); }
+    // auxiliary data (the last successfully staged value) and its hash
+    if d.aux != e.aux { return fail("aux-data", format!("built tx carries {:?} but the staged auxiliary data is {:?}", d.aux.as_ref().map(|x| hex(x)), e.aux.as_ref().map(|x| hex(x)))); }
     match (&d.aux, &d.aux_hash) {
         (None, None) => {}
         (Some(_), Some(h)) => if *Hasher::<256>::hash(items[3]) != h[..] { return fail("aux-hash", format!("{} vs Blake2b-256 of the aux item", hex(h))); },
         _ => return fail("aux-hash", "auxiliary data and its hash do not come together".into()),
     }
-    if d.sdh != lv { return fail("script-data-hash", format!("present {} but language views staged {}", d.sdh, lv)); }
+    if d.sdh != e.lv { return fail("script-data-hash", format!("present {} but language views staged {}", d.sdh, e.lv)); }
     // redeemers: each staged one appears once and points at its target in the ledger's canonical order
-    // (index into the sorted *set* of inputs / sorted minting policies of the built tx)
-    let canon_in: Vec<(Vec<u8>, u64)> = d.inputs.iter().cloned().collect::<BTreeSet<_>>().into_iter().collect();
-    let canon_pol: Vec<Vec<u8>> = d.mint.iter().map(|e| e.0.clone()).collect::<BTreeSet<_>>().into_iter().collect();
-    let mut expect: Vec<(String, Vec<u8>, u64, u64)> = vec![];
-    if let Some(m) = js["redeemers"].as_object() {
-        for (k, v) in m { expect.push((k.clone(), jhex(&v[0]), v[1]["mem"].as_u64().unwrap_or(0), v[1]["steps"].as_u64().unwrap_or(0))); }
-    }
-    if d.rdmrs.len() != expect.len() { return fail("redeemer-count", format!("{} built, {} staged", d.rdmrs.len(), expect.len())); }
+    // (index into the sorted *set* of staged inputs / sorted minting policies)
+    let canon_pol: Vec<Vec<u8>> = e.mint_list().into_iter().map(|x| x.0).collect();
+    if d.rdmrs.len() != e.rdmrs.len() { return fail("redeemer-count", format!("{} built, {} staged", d.rdmrs.len(), e.rdmrs.len())); }
     let mut seen = BTreeSet::new();
     for (tag, ix, data, mem, steps) in &d.rdmrs {
         let target = match tag {
-            0 => canon_in.get(*ix as usize).map(|i| format!("spend:{}#{}", hex(&i.0), i.1)),
+            0 => canon.get(*ix as usize).map(|i| format!("spend:{}#{}", hex(&i.0), i.1)),
             1 => canon_pol.get(*ix as usize).map(|p| format!("mint:{}", hex(p))),
             _ => None,
         };
-        let Some(target) = target else { return fail("redeemer-pointer", format!("redeemer (tag {}, index {}) points outside the {} inputs / {} policies", tag, ix, canon_in.len(), canon_pol.len())) };
-        match expect.iter().find(|e| e.0 == target) {
+        let Some(target) = target else { return fail("redeemer-pointer", format!("redeemer (tag {}, index {}) points outside the {} inputs / {} policies", tag, ix, canon.len(), canon_pol.len())) };
+        match e.rdmrs.get(&target) {
             None => return fail("redeemer-pointer", format!("redeemer (tag {}, index {}) points at {} which has no staged redeemer", tag, ix, target)),
-            Some(e) => {
-                if &e.1 != data || e.2 != *mem || e.3 != *steps { return fail("redeemer-pointer", format!("redeemer (tag {}, index {}) points at {} but carries another redeemer's data/budget", tag, ix, target)); }
+            Some(x) => {
+                if &x.0 != data || x.1 != Some((*mem, *steps)) { return fail("redeemer-pointer", format!("redeemer (tag {}, index {}) points at {} but carries another redeemer's data/budget", tag, ix, target)); }
                 if !seen.insert(target.clone()) { return fail("redeemer-pointer", format!("two redeemers point at {}", target)); }
             }
         }
@@ -439,10 +457,11 @@ fn run_case(ops: &[Op], tag: &str, oracle_only: bool) {
     let coq_ops: Vec<String> = ops.iter().map(|o| o.coq(&mut t)).collect();
     let mut st = Some(StagingTransaction::new());
     let mut out: Option<String> = None;
+    let mut exp = Exp::default();
     for (n, op) in ops.iter().enumerate() {
         let s = st.take().unwrap();
         match guard(|| op.apply(s)) {
-            Out::Ok(s2) => st = Some(s2),
+            Out::Ok(s2) => { st = Some(s2); exp.step(op); }
             // a staging method refusing / panicking is outside this property (it is about build); recorded for the tie
             Out::Err(e) => { out = Some(format!("Err {}", err_class(&e))); emit_stat("staging_op_err", 1); let _ = n; break; }
             Out::Panic(m) => { out = Some(format!("Panic {}", panic_class(&m))); emit_stat("staging_op_panic", 1); break; }
@@ -450,8 +469,6 @@ fn run_case(ops: &[Op], tag: &str, oracle_only: bool) {
     }
     if let Some(s) = st {
         let js = serde_json::to_value(&s).expect("staging json");
-        let aux_staged = s.auxiliary_data.clone();
-        let lv = s.language_views.is_some();
         match guard(|| s.build_conway_raw().map_err(|e| format!("{:?}", e))) {
             Out::Panic(m) => {
                 let key = if m.contains("ExUnits budget calculation") { "panic:todo-exunits" }
@@ -463,7 +480,7 @@ fn run_case(ops: &[Op], tag: &str, oracle_only: bool) {
             }
             Out::Err(e) => { out = Some(format!("Err {}", err_class(&e))); emit_stat("build_err", 1); }
             Out::Ok(b) => {
-                oracle(&js, &aux_staged, lv, &b.tx_hash.0, &b.tx_bytes.0, &text);
+                oracle(&exp, &b.tx_hash.0, &b.tx_bytes.0, &text);
                 emit_stat("build_ok", 1);
                 out = Some(match decode(&b.tx_bytes.0) { Some(d) => format!("Ok {}", dec_coq(&d, &mut t)), None => "Err 99".into() });
             }
@@ -532,6 +549,69 @@ fn gen_coherent(r: &mut Rng) -> Vec<Op> {
     ops
 }
 
+/// the operation that un-stages what `op` staged
+fn remover(op: &Op, r: &mut Rng) -> Option<Op> {
+    use Op::*;
+    Some(match op {
+        In(h, i) => RIn(*h, *i), Ref(h, i) => RRef(*h, *i), Col(h, i) => RCol(*h, *i), Sg(k) => RSg(*k), Scr(x) => RScr(*x),
+        DatO(d) => match r.below(3) { 0 => RDat(*d), 1 => RDatH(*d), _ => RDatT(*d) },
+        Mint(p, n, _) => RMint(*p, *n), SRd(h, i, ..) => RSRd(*h, *i), MRd(p, ..) => RMRd(*p),
+        Fee(_) => CFee, Vf(_) => CVf, If(_) => CIf, Net(_) => CNet, COut(_) => CCOut, Aux(_) => CAux,
+        _ => return None,
+    })
+}
+/// random ops in which earlier staging calls are repeated (adjacent or not) and later removed / cleared
+fn gen_seq(r: &mut Rng, n: u64, wild: bool) -> Vec<Op> {
+    let mut ops: Vec<Op> = vec![];
+    for _ in 0..n {
+        let adds: Vec<Op> = ops.iter().filter(|o| remover(o, &mut Rng::new(0)).is_some()).cloned().collect();
+        let op = match r.below(10) {
+            0 | 1 if !adds.is_empty() => r.pick(&adds).clone(),                          // stage the same item again
+            2 | 3 if !adds.is_empty() => { let a = r.pick(&adds).clone(); remover(&a, r).unwrap() } // un-stage an earlier item
+            _ => gen_op(r, wild),
+        };
+        ops.push(op);
+    }
+    ops
+}
+/// a history built to succeed in which items are staged twice (adjacent / non-adjacent) and then removed,
+/// with spend redeemers on inputs sorting around the removed one
+fn gen_dup_remove(r: &mut Rng) -> Vec<Op> {
+    use Op::*;
+    let mut ops = vec![];
+    let mut pool: Vec<(usize, u64)> = vec![];
+    while pool.len() < 4 { let i = (r.below(6) as usize, *r.pick(&[0u64, 1, 2, 7])); if !pool.contains(&i) { pool.push(i); } }
+    let gone = pool[0];
+    let keep: Vec<(usize, u64)> = pool[1..1 + r.range(1, 3) as usize].to_vec();
+    let mut stage: Vec<Op> = keep.iter().map(|i| In(i.0, i.1)).collect();
+    for _ in 0..r.range(2, 3) { let at = r.below(stage.len() as u64 + 1) as usize; stage.insert(at, In(gone.0, gone.1)); } // copies, adjacent or not
+    ops.extend(stage);
+    for i in &keep { if r.bool() { ops.push(SRd(i.0, i.1, r.below(5) as usize, Some((r.below(1000), r.below(100000))))); } }
+    if r.chance(1, 4) { ops.push(SRd(gone.0, gone.1, 0, Some((1, 2)))); if r.bool() { ops.push(RSRd(gone.0, gone.1)); } }
+    ops.push(RIn(gone.0, gone.1));
+    // the same pattern for the other collections / maps / optional fields
+    for _ in 0..r.range(1, 4) {
+        let base: Op = match r.below(12) {
+            0 => Ref(r.below(6) as usize, r.below(3)), 1 => Col(r.below(6) as usize, r.below(3)), 2 => Sg(r.below(3) as usize),
+            3 => Scr(*r.pick(&[0usize, 1, 2, 5, 6, 7, 8])), 4 => DatO(r.below(5) as usize), 5 => Mint(r.below(3) as usize, r.below(5) as usize, *r.pick(&[1i64, 5, -5])),
+            6 => MRd(r.below(3) as usize, r.below(5) as usize, Some((3, 4))), 7 => Fee(r.below(1000)), 8 => Vf(r.below(100)), 9 => Net(r.below(2) as u8),
+            10 => Aux(r.below(4) as usize), _ => COut(gen_out(r, false)),
+        };
+        let other: Op = match &base { Ref(h, i) => Ref((h + 1) % 6, *i), Col(h, i) => Col((h + 1) % 6, *i), Sg(k) => Sg((k + 1) % 3), Scr(_) => Scr(6), DatO(d) => DatO((d + 1) % 5), _ => Nop(0) };
+        ops.push(base.clone());
+        if r.bool() { ops.push(other); }
+        ops.push(base.clone());
+        if r.chance(3, 4) { ops.push(remover(&base, r).unwrap()); }
+    }
+    // auxiliary data: a refused (undecodable) call must not disturb what is staged
+    match r.below(4) { 0 => { ops.push(Aux(r.below(4) as usize)); ops.push(Aux(4 + r.below(2) as usize)); } 1 => { ops.push(Aux(4 + r.below(2) as usize)); ops.push(Aux(r.below(4) as usize)); } _ => {} }
+    if r.chance(1, 3) { let o = gen_out(r, false); ops.push(Out(o.clone())); ops.push(Out(o)); ops.push(ROut(r.below(2) as usize)); }
+    // mint redeemers only build when their policy mints something
+    let minted: Vec<usize> = (0..3).filter(|p| { let mut e = Exp::default(); for o in &ops { e.step(o); } e.mint_list().iter().any(|x| x.0 == pol(*p).to_vec()) }).collect();
+    ops.retain(|o| match o { MRd(p, ..) => minted.contains(p), _ => true });
+    ops
+}
+
 fn main() {
     let args = args();
     let mut rng = Rng::new(args.seed);
@@ -578,6 +658,18 @@ fn main() {
         "in:0:0,col:1:0,col:0:0,ref:2:0,ref:0:1,sg:2,sg:0,cout:0.5._._._,vf:1,if:2,net:1",
         "in:0:0,mint:0:4:1,mint:0:3:1,mint:0:1:1,mint:0:0:1,mint:0:5:1,mint:0:2:1",   // asset-name ordering
         "in:0:0,out:0.1.2-4-1+2-3-1+0-1-1+0-0-1+3-2-7._._",
+        // staged twice (adjacent / non-adjacent), then removed: the item is no longer staged at all
+        "in:0:0,in:0:0,rin:0:0,in:1:0", "in:0:0,in:1:0,in:0:0,rin:0:0,srd:1:0:0:1-2", "in:2:0,in:0:0,in:1:0,in:0:0,in:0:0,rin:0:0,srd:1:0:0:1-2,srd:2:0:1:3-4",
+        "in:1:0,in:0:0,in:0:0,rin:0:0,srd:0:0:0:1-2", "in:0:0,in:0:0,rin:0:0",
+        "in:0:0,ref:1:0,ref:1:0,rref:1:0", "in:0:0,ref:1:0,ref:2:0,ref:1:0,rref:1:0", "in:0:0,col:1:0,col:1:0,rcol:1:0", "in:0:0,col:1:0,col:2:0,col:1:0,rcol:1:0",
+        "in:0:0,sg:1,sg:1,rsg:1", "in:0:0,sg:1,sg:0,sg:1,rsg:1", "in:0:0,scr:1,scr:1,rscr:1", "in:0:0,scr:1,scr:5,scr:1,rscr:1,scr:8",
+        "in:0:0,dat:1,dat:1,rdat:1", "in:0:0,dat:1,dat:0,dat:1,rdath:1", "in:0:0,dat:1,dat:0,dat:1,rdatt:1", "in:0:0,dat:2,rdatt:2",
+        "in:0:0,mint:0:1:5,mint:0:1:5,rmint:0:1,mint:1:1:1", "in:0:0,mint:0:1:5,mint:1:1:1,mint:0:1:5,rmint:0:1,mrd:1:0:1-2",
+        "in:0:0,out:0.5._._._,out:0.5._._._,rout:0", "in:0:0,out:0.5._._._,out:1.6._._._,out:0.5._._._,rout:0,rout:0",
+        "in:0:0,srd:0:0:0:1-2,srd:0:0:1:3-4,rsrd:0:0", "in:0:0,mint:0:1:1,mrd:0:0:1-2,mrd:0:1:3-4,rmrd:0",
+        "in:0:0,fee:1,fee:2,cfee", "in:0:0,vf:1,vf:2,cvf,if:3,if:4,cif", "in:0:0,net:0,net:1,cnet", "in:0:0,cout:0.5._._._,cout:1.6._._._,ccout",
+        // a refused / ignored call leaves the previously staged content in place
+        "in:0:0,aux:0,aux:4", "in:0:0,aux:4,aux:0", "in:0:0,aux:1,aux:5,aux:4", "in:0:0,aux:0,aux:5,aux:2,aux:4", "in:0:0,aux:0,aux:4,caux", "in:0:0,aux:4", "in:0:0,aux:0,aux:0,caux",
     ];
     for (j, f) in fixed.iter().enumerate() {
         let ops = parse_line(f).unwrap_or_else(|| panic!("bad fixed case {}", f));
@@ -585,11 +677,12 @@ fn main() {
     }
     // 3. random sequences
     for i in 0..args.n {
-        let (ops, tag) = match rng.below(10) {
-            0..=4 => (gen_coherent(&mut rng), "coherent"),
-            5..=6 => { let n = rng.range(1, 12); ((0..n).map(|_| gen_op(&mut rng, false)).collect(), "random-valid-values") }
-            7 => { let n = rng.range(8, 30); ((0..n).map(|_| gen_op(&mut rng, false)).collect(), "random-long") }
-            _ => { let n = rng.range(1, 14); ((0..n).map(|_| gen_op(&mut rng, true)).collect(), "wild") }
+        let (ops, tag) = match rng.below(12) {
+            0..=3 => (gen_coherent(&mut rng), "coherent"),
+            4..=6 => (gen_dup_remove(&mut rng), "duplicates-then-remove"),
+            7..=8 => { let n = rng.range(1, 12); (gen_seq(&mut rng, n, false), "random-valid-values") }
+            9 => { let n = rng.range(8, 30); (gen_seq(&mut rng, n, false), "random-long") }
+            _ => { let n = rng.range(1, 14); (gen_seq(&mut rng, n, true), "wild") }
         };
         if i < 3 { emit_sample(&ops.iter().map(|o| o.tok()).collect::<Vec<_>>().join(",")); }
         run_case(&ops, tag, args.oracle_only);
